@@ -3,6 +3,7 @@ import Bpp.BatchThm
 import Bpp.RecoveryThm
 import Bpp.PromiseThm
 import Bpp.BatchFlow
+import Bpp.CodecThm
 /-! # Property theorems
 
 Only the property statements live here, one block per C-id, each about the **executable** model functions of
@@ -172,5 +173,31 @@ theorem C03_prefix_defect :
     Model.Batch.verifyBatchPrefix 2 .verifyOnly 3 3 [BatchFlow.good, BatchFlow.good, BatchFlow.bad] = some [false, false] ∧
     Model.Batch.verifyBatch 2 .verifyOnly 3 3 [BatchFlow.good, BatchFlow.good, BatchFlow.bad] = none :=
   BatchFlow.verifyBatchPrefix_counterexample
+
+/-! ## C15 Encoding (core Lean, bytes as `List UInt8`; model `Model.Codec`) -/
+
+open Model.Codec in
+/-- **C15 (exact acceptance set + decoded value).** `decode b = some p` iff `p` is well-formed (tag `d ∈ 1..6`, `d`
+    canonical `d1` scalars, canonical `r1`, `s1`, 32-byte points, `k ≥ 1` L/R pairs) and `b` is its encoding. -/
+theorem C15_accept_iff (bs : Bytes) (p : Proof) : decode bs = some p ↔ p.wf ∧ encode p = bs :=
+  decode_eq_some_iff bs p
+
+open Model.Codec in
+/-- **C15 (canonical).** Whenever decoding succeeds, re-encoding returns the identical bytes — for every byte string. -/
+theorem C15_reencode {bs : Bytes} {p : Proof} (h : decode bs = some p) : encode p = bs := encode_decode h
+
+open Model.Codec in
+/-- **C15 (round trip).** -/
+theorem C15_roundtrip (p : Proof) (h : p.wf) : decode (encode p) = some p := decode_encode p h
+
+open Model.Codec in
+/-- **C15 (length).** Accepted strings have length `1 + 32·(5 + d + 2k)`, `k ≥ 1`, first byte `d`. -/
+theorem C15_length {bs : Bytes} {p : Proof} (h : decode bs = some p) :
+    bs.length = 1 + 32 * (5 + p.tag + 2 * p.li.length) ∧ 1 ≤ p.li.length ∧ bs.head? = some (UInt8.ofNat p.tag) :=
+  decode_length h
+
+open Model.Codec in
+/-- **C15 (zero rounds: the known finding as the exact boundary).** -/
+theorem C15_zero_rounds (p : Proof) (h : p.li = []) : decode (encode p) ≠ some p := zero_rounds_refused p h
 
 end Bpp
